@@ -366,7 +366,7 @@ func TestVerif_C08(t *testing.T) {
 	r.Assume("frame boundaries and fields are decoded by the independent h2ref reader; a client SETTINGS change binds the server only from its SETTINGS ACK in the server's byte stream, before that old and new values are both admissible (monotone: once a DATA frame proves a newer snapshot is in use, older ones are dropped); WINDOW_UPDATE counts from the moment the client wrote it; quiescence = testing/synctest.Wait")
 	r.Assume("the 'sent once a window is available' clause is decided at quiescent points only: a handler parked in Write/Flush, or returned, with body bytes outstanding while both shadow windows are > 0 is a violation")
 
-	n := r.N(400, 12000)
+	n := r.N(400, 6000)
 	// a slice of the sessions runs with the package's serve-goroutine assertion enabled
 	vsrvGoroutineTracking(true)
 	r.CasesParallel("session-gotrack", n/20, 0, func(c *verifrt.Case) {
